@@ -26,6 +26,7 @@ fn params(c: &Value, serial: u64) -> CertParams {
         asn: res_choice(&c["res"]["as"]),
         serial,
         raw: None,
+        validity: None,
     }
 }
 fn atom_list(v: &Value) -> Vec<String> {
@@ -120,7 +121,7 @@ fn run_pair(ctx: &mut Ctx, c: &Value) -> Result<(), (String, String)> {
     let mk = |kind: &str, key: &str, sig: &str, policy: &str, raw| CertParams {
         kind: kind.into(), key: key.into(), sig_key: sig.into(), aki: if kind == "ta" { "none".into() } else { sig.into() }, ski_ok: true, tamper: "none".into(),
         nb: 0, na: 2, policy: policy.into(), v4: ResChoice { c: "missing".into(), s: vec![] }, v6: ResChoice { c: "missing".into(), s: vec![] },
-        asn: ResChoice { c: "missing".into(), s: vec![] }, serial: 9, raw: Some(raw),
+        asn: ResChoice { c: "missing".into(), s: vec![] }, serial: 9, raw: Some(raw), validity: None,
     };
     for fam in [Fam::V4, Fam::As] {
         // model point p -> 16 consecutive addresses at 192.0.2.0 + 16p  /  1000 consecutive ASNs from 64496 + 1000p
@@ -237,7 +238,7 @@ pub fn drive(args: &[String]) {
     let base = |kind: &str, key: &str, sig: &str, policy: &str, raw| CertParams {
         kind: kind.into(), key: key.into(), sig_key: sig.into(), aki: if kind == "ta" { "none".into() } else { sig.into() }, ski_ok: true, tamper: "none".into(),
         nb: 0, na: 2, policy: policy.into(), v4: ResChoice { c: "missing".into(), s: vec![] }, v6: ResChoice { c: "missing".into(), s: vec![] },
-        asn: ResChoice { c: "missing".into(), s: vec![] }, serial: 7, raw: Some(raw),
+        asn: ResChoice { c: "missing".into(), s: vec![] }, serial: 7, raw: Some(raw), validity: None,
     };
     for i in 0..n {
         // value pools per family: a few anchors and their neighbourhoods
